@@ -166,7 +166,9 @@ func mixHash(a, b uint64) {
 //go:norace
 func yieldHook(site int) {
 	if site >= 0 {
-		sTicks++ // progress, as the watchdog understands it
+		sTicks++            // progress, as the watchdog understands it
+		hook.SimNow += 1000 // simulated time creeps by a microsecond per statement, whatever the granularity of the run:
+		// a loop that waits for the clock must see it move
 	}
 	cur := sCur // read once: a foreign goroutine may be preempted between the test and the use
 	if sActive && (cur < 0 || cur >= maxTasks || getg() != sTaskG[cur]) {
@@ -184,7 +186,6 @@ func yieldHook(site int) {
 			runtime.Gosched() // a rewritten Lock loop outside a run: let the holder (a goroutine of the tree under test) proceed
 			return
 		}
-		hook.SimNow += 1000
 		if sCounting {
 			sCountN++
 			sRefOpHash = (sRefOpHash ^ uint64(site+1)) * 0x100000001b3
@@ -357,7 +358,6 @@ func nextClockJump() int64 {
 
 //go:norace
 func clockTick() {
-	hook.SimNow += 1000
 	if sClkRate > 0 {
 		sClkLeft--
 		if sClkLeft == 0 {
